@@ -241,4 +241,93 @@ theorem reuseStart_repaired (f1 : Flags) (rs : List Bool) :
   rcases f1 with ⟨m, fw, w, c, s, d⟩
   cases m <;> cases fw <;> cases w <;> cases c <;> cases s <;> cases d <;> cases p <;> decide
 
+/-! ## Two-run history into the same folder -/
+
+theorem age_blank {fs : FS} (h : fs.Blank) : (age fs).Blank := by
+  intro p c hc
+  simp only [age, Option.map_eq_some_iff] at hc
+  obtain ⟨c0, h0, rfl⟩ := hc
+  have := h p c0 h0
+  cases c0 <;> simp_all [Content.aged, Content.keyBlank]
+
+theorem fsFrom_more_roundsP (pb pl : Path) (v : Version) (f : Flags) : ∀ (rs : List Bool) (fs : FS),
+    fs pb = some (cfg .used (blankTrain v f) false) →
+    fs pl = some (cfg .used (blankTrain v f) false) →
+    fsFrom fs (rs.flatMap (ckptRoundP pb pl v f)) = fs
+  | [], _, _, _ => rfl
+  | r :: rs, fs, hb, hl => by
+    rw [List.flatMap_cons, fsFrom_append]
+    have h1 : fsFrom fs (ckptRoundP pb pl v f r) = fs := by
+      cases r
+      · simp [ckptRoundP, fsFrom]
+      · simp [ckptRoundP, fsFrom, step_write_same hb, step_write_same hl]
+    rw [h1]
+    exact fsFrom_more_roundsP pb pl v f rs fs hb hl
+
+theorem fsFrom_fit_any_epochsP (pb pl : Path) (hne : pb ≠ pl) (v : Version) (f : Flags) (rs : List Bool)
+    (fs : FS) :
+    fsFrom fs (fitPhaseP pb pl v f (true :: rs)) = fsFrom fs (fitPhaseP pb pl v f [true]) := by
+  unfold fitPhaseP
+  split
+  · rw [List.flatMap_cons, fsFrom_append]
+    have hb : fsFrom fs (ckptRoundP pb pl v f true) pb = some (cfg .used (blankTrain v f) false) := by
+      simp [ckptRoundP, fsFrom, step, hne]
+    have hl : fsFrom fs (ckptRoundP pb pl v f true) pl = some (cfg .used (blankTrain v f) false) := by
+      simp [ckptRoundP, fsFrom, step]
+    rw [fsFrom_more_roundsP pb pl v f rs _ hb hl]
+    simp
+  · rfl
+
+theorem bestPath_ne_lastPath (a : Bool) : bestPath a ≠ lastPath a := by
+  cases a <;> decide
+
+theorem fsFrom_traceS_any_epochs (v : Version) (a : Bool) (f : Flags) (rs : List Bool) (fs : FS) :
+    fsFrom fs (traceS v a f (true :: rs)) = fsFrom fs (traceS v a f [true]) := by
+  unfold traceS
+  simp only [fsFrom_append]
+  rw [fsFrom_fit_any_epochsP _ _ (bestPath_ne_lastPath a)]
+
+theorem forall_mem_traceS {P : Event → Prop} (v : Version) (a : Bool) (f : Flags) (rounds : List Bool)
+    (h1 : ∀ e ∈ initPhase v f, P e) (h2 : ∀ e ∈ resavePhase v f, P e) (h3 : ∀ e ∈ chunkPhase f, P e)
+    (h4 : ∀ b, ∀ e ∈ ckptRoundP (bestPath a) (lastPath a) v f b, P e) (h5 : ∀ e ∈ finallyPhase v f, P e) :
+    ∀ e ∈ traceS v a f rounds, P e := by
+  intro e he
+  simp only [traceS, List.mem_append] at he
+  rcases he with (((h | h) | h) | h) | h
+  · exact h1 e h
+  · exact h2 e h
+  · exact h3 e h
+  · unfold fitPhaseP at h
+    split at h
+    · obtain ⟨b, _, hb⟩ := List.mem_flatMap.mp h
+      exact h4 b e hb
+    · cases h
+  · exact h5 e h
+
+theorem all_blank_traceS (a : Bool) (f : Flags) (rounds : List Bool) :
+    ∀ e ∈ traceS .repaired a f rounds, e.blank = true := by
+  refine forall_mem_traceS _ a f rounds ?_ ?_ ?_ ?_ ?_
+  · flag_cases f
+  · flag_cases f
+  · flag_cases f
+  · intro b; cases a <;> cases b <;> flag_cases f
+  · flag_cases f
+
+/-- The file system a completed (repaired) fresh run leaves; it depends on four flags only. -/
+def exitFS (fw : Framework) (wandb ckpt del : Bool) : FS := fun p =>
+  match p with
+  | .initialCfg => some (cfg .supplied true false)
+  | .trainingCfg => some (cfg .used true wandb)
+  | .bestCkpt | .lastCkpt => if ckpt then some (cfg .used true false) else none
+  | .chunksCfg => if fw = .npChunks then some (cfg .prepared true false) else none
+  | .trainChunks | .valChunks => if fw = .npChunks ∧ ¬ del then some .data else none
+  | .bestCkptV1 | .lastCkptV1 => none
+
+theorem fsAfter_repaired_eq (f : Flags) (rs : List Bool) :
+    fsAfter (traceG .repaired f (true :: rs)) = exitFS f.fw f.wandb f.ckpt f.deleteChunks := by
+  rw [fsAfter_any_epochs]
+  funext p
+  rcases f with ⟨m, fw, w, c, s, d⟩
+  cases m <;> cases fw <;> cases w <;> cases c <;> cases s <;> cases d <;> cases p <;> decide
+
 end SleapVerif.TrainTrace
